@@ -38,7 +38,7 @@ REAL_STUB = {
 ASSUMPTIONS = [
     "workers honour shouldStop between tests, as the docstrings require of make_tests",
     "route codes are non-None strings",
-    "'told to stop' is read at the instant run() unwinds (a worker's own later startTestRun may clear an ExtendedToStreamDecorator's flag again)",
+    "'told to stop' is read at the instant run() unwinds and again once every thread has finished (a delivered stop must still be readable)",
 ]
 
 REAL_PY = os.path.realpath(_real.__file__)
@@ -154,6 +154,17 @@ def gen(tape, big=False):
     return stream_suite, workers, faults
 
 
+def gen_second(tape, stream_suite):
+    """Worker specs for a second, fault-free run() on the same suite object."""
+    n = 1 + tape.draw("program", 3, "second-nworkers")
+    specs = []
+    for w in range(n):
+        nitems = tape.draw("program", 3, "second-nitems")
+        items = [["ph", tape.choice("program", PH_OUTCOMES, "second-outcome")] for _ in range(nitems)]
+        specs.append({"kind": "list", "items": items, "crash_after": None, "route": f"rc{w}"})
+    return specs
+
+
 class StopRecorder:
     """wrap_result product: forwards everything, remembers stop() calls."""
 
@@ -175,7 +186,10 @@ def run_one(tape, opts):
     stream_suite, wspecs, faults = gen(tape, big=opts.get("tier") == "thorough")
     traced = tape.chance("config", 1, 4 if opts.get("tier") == "thorough" else 12, "traced")   # line-level pre-emption
     failfast = (not stream_suite) and tape.chance("config", 1, 4, "caller-result-failfast")
-    nitems = sum(len(w["items"]) + 2 for w in wspecs)
+    # the same suite object is run a second time (fresh sub-suites, no faults): nothing of the first
+    # run -- however it ended -- may leak into it
+    wspecs2 = gen_second(tape, stream_suite) if tape.chance("config", 1, 3, "second-run") else None
+    nitems = sum(len(w["items"]) + 2 for w in wspecs) + sum(len(w["items"]) + 2 for w in wspecs2 or ())
     est = nitems * (60 if traced else 14) + 20
     if traced:
         policy = "pct"
@@ -196,6 +210,7 @@ def run_one(tape, opts):
         sched.interrupts[(faults["interrupt"][0], faults["interrupt"][1])] = KeyboardInterrupt
     sems, queues = [], []
     workers = [Worker(i, s, sched) for i, s in enumerate(wspecs)]
+    workers2 = [Worker(i, s, sched) for i, s in enumerate(wspecs2)] if wspecs2 is not None else None
     for w in workers:
         if w.spec["kind"] == "raw":
             for ev in w.spec["items"]:
@@ -208,45 +223,87 @@ def run_one(tape, opts):
     yielded = []
     stop_log = []
     state = {}
+    created = []   # per-worker results created by ConcurrentStreamTestSuite.run, in order
+    # what the seams record into; swapped for the second run
+    cur = {"workers": workers, "faults": faults, "yielded": yielded, "stop_log": stop_log, "queues": queues,
+           "created": created}
+    no_faults = {"result": {}, "make_tests_after": None, "wrap_raises_at": None, "interrupt": None}
 
     def make_tests_cts(suite):
-        for i, w in enumerate(workers):
-            if faults["make_tests_after"] == i:
+        ws, fl = cur["workers"], cur["faults"]
+        for i, w in enumerate(ws):
+            if fl["make_tests_after"] == i:
                 raise injected
-            yielded.append(w)
+            cur["yielded"].append(w)
             yield w
-        if faults["make_tests_after"] == len(workers):
+        if fl["make_tests_after"] == len(ws):
             raise injected
 
     def make_tests_csts():
-        for i, w in enumerate(workers):
-            if faults["make_tests_after"] == i:
+        ws, fl = cur["workers"], cur["faults"]
+        for i, w in enumerate(ws):
+            if fl["make_tests_after"] == i:
                 raise injected
-            yielded.append(w)
+            cur["yielded"].append(w)
             yield (w, w.spec["route"])
-        if faults["make_tests_after"] == len(workers):
+        if fl["make_tests_after"] == len(ws):
             raise injected
 
     def wrap_result(tsr, i):
-        if faults["wrap_raises_at"] == i:
+        if cur["faults"]["wrap_raises_at"] == i:
             raise wrap_exc
-        return StopRecorder(tsr, stop_log, i)
+        return StopRecorder(tsr, cur["stop_log"], i)
 
     def make_queue(*a, **k):
         q = SimQueue(sched)
-        queues.append(q)
+        cur["queues"].append(q)
         return q
 
-    if stream_suite:
-        target = TStream(world, "caller", plan)
-        suite = testtools.ConcurrentStreamTestSuite(make_tests_csts)
-    else:
-        target = TExt(world, "caller", plan)
-        target.failfast = failfast
-        import unittest as _ut
-        suite = testtools.ConcurrentTestSuite(_ut.TestSuite(), make_tests_cts, wrap_result=wrap_result)
+    world2 = World()
+    world2.thread_of = sched.current_name
+    world2.pre_hook, world2.post_hook = world.pre_hook, world.post_hook
+    run2 = {"yielded": [], "stop_log": [], "queues": [], "created": [], "state": {}, "exc": None, "ran": False}
+
+    def build():
+        # on T0, with the seams in place: whatever the constructors create is simulated too
+        if stream_suite:
+            tg = TStream(world, "caller", plan)
+            tg2 = TStream(world2, "caller", FaultPlan({}))
+            st = testtools.ConcurrentStreamTestSuite(make_tests_csts)
+        else:
+            tg = TExt(world, "caller", plan)
+            tg.failfast = failfast
+            tg2 = TExt(world2, "caller", FaultPlan({}))
+            import unittest as _ut
+            st = testtools.ConcurrentTestSuite(_ut.TestSuite(), make_tests_cts, wrap_result=wrap_result)
+        return tg, tg2, st
 
     def main():
+        target, target2, suite = build()
+        state["target"] = target
+        try:
+            _first(suite, target)
+        finally:
+            if workers2 is not None and not sched.problem:
+                _second(suite, target2)
+
+    def _second(suite, target2):
+        first_threads = len(sched.threads)
+        first_sems = len(sems)
+        cur.update(workers=workers2, faults=no_faults, yielded=run2["yielded"], stop_log=run2["stop_log"],
+                   queues=run2["queues"], created=run2["created"])
+        sched.interrupts.clear()
+        run2["ran"] = True
+        try:
+            suite.run(target2)
+        except BaseException as e:    # noqa: B036 -- recorded, judged by the oracle
+            run2["exc"] = e
+        finally:
+            run2["threads"] = sched.threads[first_threads:]
+            run2["sems"] = sems[first_sems:]
+            run2["state"]["alive"] = [t.name for t in run2["threads"] if t.state not in (DONE, NEW)]
+
+    def _first(suite, target):
         try:
             suite.run(target)
         finally:
@@ -264,16 +321,15 @@ def run_one(tape, opts):
                         done_names.add(th)
             state["announced"] = [i for i, t in enumerate(sched.threads[1:]) if t.name in done_names]
 
-    created = []   # per-worker results created by ConcurrentStreamTestSuite.run, in order
-
     class RecordingESD(testtools.ExtendedToStreamDecorator):
         def __init__(self, decorated):
             super().__init__(decorated)
-            self._verif_idx = len(created)
-            created.append(self)
+            self._verif_idx = len(cur["created"])
+            self._verif_log = cur["stop_log"]
+            cur["created"].append(self)
 
         def stop(self):
-            stop_log.append(self._verif_idx)
+            self._verif_log.append(self._verif_idx)
             return super().stop()
 
     class _TT:
@@ -313,7 +369,27 @@ def run_one(tape, opts):
             raise RuntimeError("harness stuck: " + desc)
         out.violate(kind, "stream" if stream_suite else "plain", desc + f" | faults {faults} fired {plan.fired} interrupts {sched.fired_interrupts}", step=sched.step)
     else:
-        _oracle(out, stream_suite, workers, yielded, faults, plan, sched, state, exc, abort_expected, events, queues, sems)
+        _oracle(out, stream_suite, workers, yielded, faults, plan, sched, state, exc, abort_expected, events, queues,
+                sems if not run2["ran"] else sems[:len(sems) - len(run2["sems"])],
+                sched.threads if not run2["ran"] else sched.threads[:len(sched.threads) - len(run2["threads"])])
+        # a stop that was delivered stays delivered: nothing the suite does afterwards may take it back
+        if abort_expected is not None:
+            for i in sorted(set(state["stop_log"])):
+                if stream_suite:
+                    flag = created[i].shouldStop if i < len(created) else True
+                else:
+                    flag = getattr(state["target"], "shouldStop", True)
+                if not flag:
+                    out.violate("stop-forgotten", f"{'stream' if stream_suite else 'plain'}:{abort_expected[0]}",
+                                f"worker {i} was told to stop when run() was aborted, but its result's shouldStop reads False "
+                                f"once everything has finished (it ran {[x for x in workers[i].emitted]})")
+        if run2["ran"]:
+            sub = Outcome()
+            _oracle(sub, stream_suite, workers2, run2["yielded"], no_faults, FaultPlan({}), sched, run2["state"],
+                    run2["exc"], None, list(world2.events), run2["queues"], run2["sems"], run2["threads"])
+            for v in sub.violations:
+                out.violate("second-run:" + v.kind, v.key, "second run() on the same suite object (first run "
+                            + ("aborted" if exc is not None else "completed") + "): " + v.message)
 
     # ------------------------------------------------------------------ accounting
     for m, k in plan.fired:
@@ -344,6 +420,8 @@ def run_one(tape, opts):
         out.probe("traced-run")
     if exc is not None:
         out.probe("run-aborted")
+    if run2["ran"]:
+        out.probe("second-run-after-" + ("abort" if exc is not None else "completion"))
     if any(s.waits for s in sems):
         out.probe("semaphore-contended")
     out.steps = sched.step
@@ -365,7 +443,7 @@ def run_one(tape, opts):
     return out
 
 
-def _oracle(out, stream_suite, workers, yielded, faults, plan, sched, state, exc, abort_expected, events, queues, sems):
+def _oracle(out, stream_suite, workers, yielded, faults, plan, sched, state, exc, abort_expected, events, queues, sems, threads):
     tag = "stream" if stream_suite else "plain"
     # -- abort / propagation
     if abort_expected is None:
@@ -399,7 +477,7 @@ def _oracle(out, stream_suite, workers, yielded, faults, plan, sched, state, exc
     # -- run() returns only after all of them have finished
     if exc is None and state.get("alive"):
         out.violate("thread-alive-on-return", tag, f"run() returned while {state['alive']} had not finished")
-    for t in sched.threads:
+    for t in threads:
         if t.exc is not None and not plan.fired:
             out.violate("thread-died", f"{tag}:{type(t.exc).__name__}", f"{t.name}: {t.exc!r}")
     for s in sems:
